@@ -372,7 +372,8 @@ func Parse(block []rune, pos int) (pt ParsedTokens, syntaxHighlighted string) {
 				ansiColour(hlPipe, block[i-1])
 				ansiReset('>')
 				syntaxHighlighted += hlFunction
-			case i > 0 && (block[i-1] == '\t' || block[i-1] == ' ') && next('>'):
+			case next('>'):
+				// (`>>` appends to a file wherever it stands, also tight against a word: `out x>>file`)
 				if pos != 0 && pt.Loc >= pos {
 					return
 				}
